@@ -30,6 +30,12 @@ fn seqs() -> Vec<Value> {
     out.push(Value::safe_string("sa<fe>é日"));
     out.push(Value::from("0123456789ab"));
     out.push(Value::from("日本語éa😀z"));
+    for (i, s) in pools::utf8_lead_byte_strings().into_iter().enumerate() {
+        // E0, ED, F0, F4 and two ordinary ones
+        if matches!(i, 0 | 30 | 43 | 46 | 47 | 50) {
+            out.push(Value::from(s));
+        }
+    }
     out
 }
 
@@ -290,6 +296,22 @@ fn main() {
             push_strop(&mut strops, &mut meta, &tera, 2, s, n, Some(""));
         }
     }
+
+    // every UTF-8 lead byte: length / reverse / iterate / truncate at every cut
+    let leads = pools::utf8_lead_byte_strings();
+    for s in &leads {
+        let v = Value::from(s.as_str());
+        for op in [0u8, 1, 3] {
+            push_strop(&mut strops, &mut meta, &tera, op, &v, 0, None);
+        }
+        for n in 0..=5u64 {
+            push_strop(&mut strops, &mut meta, &tera, 2, &v, n, None);
+            if thorough {
+                push_strop(&mut strops, &mut meta, &tera, 2, &v, n, Some("é>"));
+            }
+        }
+    }
+    meta.extra.insert("utf8_lead_bytes_visited".into(), json!(leads.len()));
 
     meta.extra.insert("exhaustive_slice_cases".into(), json!(exhaustive_slice));
     meta.extra.insert("exhaustive_slice_space".into(), json!(format!("lengths 0..={max_len_exh} x (absent | -{0}..={0})^3", if thorough { 8 } else { 4 })));
